@@ -57,6 +57,7 @@ def lean_ty(t):
     if t == LAYOUT: return "Rs.Layout"
     if t == DETAILS: return "Details"
     if t == CHUNK: return "Chunk"
+    if t == BUMP: return "Arena"
     if t == ORD: return "Ordering"
     if isinstance(t, tuple) and t[0] in ("opt", "res"): return f"(Option {lean_ty(t[1])})"
     if isinstance(t, tuple) and t[0] == "res2": return f"(Except V.RErr {lean_ty(t[1])})"
@@ -138,6 +139,14 @@ FUNCS = [
     Fn("shrink", "bump", "st", group="Realloc", anchor="unsafe fn is_last_allocation"),
     Fn("grow", "bump", "st", group="Realloc", anchor="unsafe fn is_last_allocation"),
     Fn("alloc_layout_slow", "bump", "st", group="Slow"),
+    Fn("try_with_min_align_and_capacity", "assocst", "st", group="Ctor"),
+    Fn("with_min_align_and_capacity", "assocst", "st", group="Ctor"),
+    Fn("with_min_align", "assocst", "st", group="Ctor"),
+    Fn("default", "assocst", "st", group="Ctor", anchor="Default for Bump", lean="default_"),
+    Fn("try_with_capacity", "assocst", "st", group="Ctor"),
+    Fn("with_capacity", "assocst", "st", group="Ctor"),
+    Fn("try_new", "assocst", "st", group="Ctor"),
+    Fn("new", "assocst", "st", group="Ctor", anchor="impl Bump<1>"),
     Fn("alloc_try_with", "bump", "st", group="Rewind", lean="alloc_try_with_rewind", region="err_arm",
        free=[("rewind_footer", "NonNull<ChunkFooter>"), ("rewind_ptr", "NonNull<u8>"), ("inner_result_ptr", "NonNull<u8>")]),
     Fn("try_alloc_try_with", "bump", "st", group="Rewind", lean="try_alloc_try_with_rewind", region="err_arm",
@@ -567,6 +576,15 @@ class Tr:
                     d[f] = p[0]
                 if set(d) != {"new_size_without_footer", "size", "align"}: return None
                 return f"(Details.mk {d['new_size_without_footer']} {d['align']} {d['size']})", DETAILS
+            if segs[-1] == "Bump":
+                d = {}
+                for f, fe in fs:
+                    p = self.pure(fe, env)
+                    if p is None: return None
+                    d[f] = p
+                if set(d) != {"current_chunk_footer", "allocation_limit"} or d["current_chunk_footer"][1] != CHUNK:
+                    return None
+                return f"(Rs.mkArena E M {paren(d['current_chunk_footer'][0])} {paren(d['allocation_limit'][0])})", BUMP
             if segs[-1] == "ChunkFooter":
                 d = {}
                 for f, fe in fs:
@@ -899,7 +917,7 @@ class Tr:
                 # writing a whole `ChunkFooter` value to an address: from here on that address *is* this footer
                 return self.check(f"{paren(pa[1][0])}.footer = {pa[0][0]}", "footer written at an address that is not the end of its chunk",
                                   k(pa[1][0], CHUNK, env_))
-            g = FN_BY_KIND.get(("free", n)) if len(segs) == 1 else ((FN_BY_KIND.get(("assoc", n)) or FN_BY_KIND.get(("assocst", n))) if segs[0] == "Self" else None)
+            g = FN_BY_KIND.get(("free", n)) if len(segs) == 1 else ((FN_BY_KIND.get(("assoc", n)) or FN_BY_KIND.get(("assocst", n))) if segs[0] in ("Self", "Bump") else None)
             if g is not None:
                 return self.call_fn(g, None, pa, env_, k)
             raise Untranslatable(f"call of {'::'.join(segs)}")
@@ -1368,7 +1386,7 @@ def translate_all(repo):
 
 
 GROUP_IMPORTS = {"Arith": [], "Details": ["Arith"], "Bytes": ["Arith"], "Limit": ["Arith", "Bytes"], "Footer": ["Arith"], "Fast": ["Arith", "Footer"],
-                 "Realloc": ["Arith", "Fast", "Footer", "Limit"], "RawVec": [], "Reset": ["Arith", "Footer"], "Rewind": ["Arith", "Footer", "Limit", "Fast", "Realloc"], "NewChunk": ["Arith"], "Iter": ["Arith", "Footer"], "Slow": ["Arith", "Details", "Bytes", "Limit", "Footer", "Fast", "NewChunk"]}
+                 "Realloc": ["Arith", "Fast", "Footer", "Limit"], "RawVec": [], "Reset": ["Arith", "Footer"], "Rewind": ["Arith", "Footer", "Limit", "Fast", "Realloc"], "NewChunk": ["Arith"], "Iter": ["Arith", "Footer"], "Ctor": ["Arith", "Details", "NewChunk"], "Slow": ["Arith", "Details", "Bytes", "Limit", "Footer", "Fast", "NewChunk"]}
 GROUP_PRELUDE = {"RawVec": "BumpVerif.Model.RsVec"}
 
 
